@@ -184,7 +184,7 @@ type c08Case struct {
 }
 
 // scalarVariations proposes other literals for a scalar leaf, near its rules' bounds.
-func scalarVariations(rng *rand.Rand, n *gen.Node) []string {
+func scalarVariations(rng *rand.Rand, n *gen.Node, p *gen.Project) []string {
 	var out []string
 	switch n.Kind {
 	case gen.KInt, gen.KFloat:
@@ -211,6 +211,8 @@ func scalarVariations(rng *rand.Rand, n *gen.Node) []string {
 		}
 	case gen.KString:
 		out = append(out, `""`, `"a"`, `"abc"`, `"aaaaaaaaaa"`, `"x y"`, `"A\"q\\z"`)
+		// strings that spell a literal of another kind
+		out = append(out, `"null"`, `"true"`, `"false"`, `"12"`, `"-1.5"`, `"{}"`, `"[]"`, `"@t0"`)
 		if rv, ok := n.Rule("enum"); ok {
 			for _, it := range rv.List {
 				out = append(out, it.Lit)
@@ -238,6 +240,16 @@ func scalarVariations(rng *rand.Rand, n *gen.Node) []string {
 	nullable := false
 	if rv, ok := n.Rule("nullable"); ok && rv.Lit == "true" {
 		nullable = true
+	}
+	// a value typed by a reference may be whatever that type's own example is (whatever the kind of the present
+	// example - null next to nullable, say)
+	if rv, ok := n.Rule("type"); ok && strings.HasPrefix(rv.Lit, `"@`) && p != nil {
+		for _, t := range p.Types {
+			if Q := gen.Q(t.Name); Q == rv.Lit && t.Node != nil && t.Node.Lit != "" && t.Node.Kind != gen.KRef {
+				out = append(out, t.Node.Lit)
+				hasOr = true // kind filter off: the library's own Check() of the varied schema decides
+			}
+		}
 	}
 	var keep []string
 	for _, v := range out {
@@ -315,7 +327,7 @@ func c08ProjectP(r *mon.Run, vs *valService, rng *rand.Rand, p *gen.Project, red
 			leaves = leaves[:3]
 		}
 		for _, leaf := range leaves {
-			for _, v := range scalarVariations(rng, leaf) {
+			for _, v := range scalarVariations(rng, leaf, p) {
 				old, oldKind := leaf.Lit, leaf.Kind
 				leaf.Lit, leaf.Kind = v, gen.KindOfLiteral(v)
 				ept := toTexts(p, gen.DefaultLayout)
